@@ -106,6 +106,9 @@ type Chain struct {
 	Datas         []refspec.DepositData
 	KeyOf         map[[48]byte]uint64
 	NextKey       uint64
+	// KeySwapFrom > 0: keys of NEW validators are taken in pairwise swapped order from this counter
+	// value on (k, k+1 -> k+1, k): the same deposits as a sibling chain, in another order.
+	KeySwapFrom uint64
 	Included      map[[2]uint64]bool
 	Eth1Cand      refspec.Eth1Data
 	execCtr       uint64
@@ -244,6 +247,15 @@ func (c *Chain) ForkWithKeyOffset(off uint64) *Chain {
 	return o
 }
 
+// ForkWithSwappedKeys is Fork, but the copy creates its new validators from the same keys in pairwise
+// swapped order (an eth1 reorg that reorders deposits): the shared pubkey cache then knows a key at a
+// higher index than the one the copy assigns it.
+func (c *Chain) ForkWithSwappedKeys() *Chain {
+	o := c.Fork()
+	o.KeySwapFrom = o.NextKey
+	return o
+}
+
 func (c *Chain) queueDeposits(st *refspec.State, plans []DepPlan, pr *prng) {
 	if len(plans) == 0 {
 		return
@@ -282,6 +294,9 @@ func (c *Chain) queueDeposits(st *refspec.State, plans []DepPlan, pr *prng) {
 			}
 		default: // new valid validator
 			k := c.NextKey
+			if c.KeySwapFrom > 0 && k >= c.KeySwapFrom {
+				k = c.KeySwapFrom + ((k - c.KeySwapFrom) ^ 1)
+			}
 			c.NextKey++
 			d = c.depositData(k, dp.Eth1, amt, true)
 			c.KeyOf[d.Pubkey] = k
